@@ -607,6 +607,45 @@ def run(ctx):
         ctx.ob("R-C17.6", hdf, "recognises-lock-keyspaces-and-journals", ok,
                "the lock file, the keyspaces folder and *.jnl files count as database files" if ok else "not recognised as database files: %s" % ", ".join(k for k, v in need.items() if not v))
 
+    # ---- R-C17.10 "opening succeeds": recovery hands the leftover work to the workers only after they were started, and not under
+    # the keyspaces lock — the queues are bounded and nobody receives before the pool runs
+    rec10 = ctx.fn("db::Database::recover", "R-C17.10")
+    if rec10:
+        st10 = R.call_blocks(rec10, ("worker_pool::WorkerPool::start",))
+        q10 = [b for b, t in rec10.calls() if A.cname(t).endswith(("Sender::<T>::send",)) or A.cname(t) == "flush::manager::FlushManager::enqueue"]
+        ok10 = bool(st10) and bool(q10) and all(A.dominates(rec10, st10[0], b) for b in q10)
+        ctx.ob("R-C17.10", rec10, "leftover-work-queued-after-the-workers-started", ok10,
+               "WorkerPool::start dominates every blocking send / flush-queue enqueue of Database::recover" if ok10 else
+               "Database::recover sends into the bounded worker / flush queue before the worker pool is started: with more keyspaces needing a flush or compaction than the queue has slots (1000) the open blocks forever, holding the database lock")
+    # ---- R-C17.11 a temporary database's folder is removed by the LAST holder of the lock, while the lock is still held
+    gd = ctx.fn("<locked_file::LockedFileGuardInner as std::ops::Drop>::drop", "R-C17.11")
+    if gd:
+        rmd = [b for b, t in gd.calls() if A.cname(t) == "std::fs::remove_dir_all"]
+        ul = [b for b, t in gd.calls() if A.cname(t) == "std::fs::File::unlock"]
+        ok11 = bool(ul) and all(b not in A.reach_after(gd, u) for b in rmd for u in ul)
+        ctx.ob("R-C17.11", gd, "temporary-folder-removed-before-the-lock-is-released", ok11,
+               "remove_dir_all (if requested) runs before File::unlock" if ok11 else "the folder is removed AFTER the lock was released: a second opener can create its database in between and lose it")
+    dd11 = ctx.fn("<db::DatabaseInner as std::ops::Drop>::drop", "R-C17.11")
+    if dd11:
+        direct = [b for b, t in dd11.calls() if A.cname(t) in ("std::fs::remove_dir_all", "std::fs::remove_dir", "std::fs::remove_file")]
+        via = [b for b, t in dd11.calls() if A.cname(t) == "locked_file::LockedFileGuard::remove_folder_on_release"]
+        ctx.ob("R-C17.11", dd11, "database-drop-leaves-the-folder-to-the-lock-guard", not direct and bool(via),
+               "DatabaseInner::drop only registers the folder for removal with the lock guard" if (not direct and via) else
+               "DatabaseInner::drop removes the folder of a temporary database itself: keyspace handles that outlive the database still hold the lock on the unlinked lock file, a second open of the path succeeds, and the stale handle's drop later deletes files of the new instance")
+        # ---- R-C17.12 "background threads have stopped": drop joins the worker threads after they left their loops
+        jn = R.call_blocks(dd11, ("worker_pool::WorkerPool::join",))
+        cnt = [b for b, t in dd11.calls() if A.cname(t) == "std::sync::atomic::Atomic::<usize>::load"]
+        ok12 = bool(jn) and bool(cnt) and all(j_ in A.reach_after(dd11, c_) for j_ in jn for c_ in cnt) and not any(A.in_cycle(dd11, j_) for j_ in jn)
+        ctx.ob("R-C17.12", dd11, "drop-joins-the-worker-threads", ok12,
+               "after the wait loop, DatabaseInner::drop joins the worker threads" if ok12 else
+               "DatabaseInner::drop does not join the worker threads (it waits for a counter each worker decrements while still running): threads can be alive when the drop of the last handle returns")
+    wj = ctx.fn("worker_pool::WorkerPool::join", "R-C17.12")
+    if wj:
+        cur = [b for b, t in wj.calls() if A.cname(t) == "std::thread::current"]
+        jh = [b for b, t in wj.calls() if A.cname(t) == "std::thread::JoinHandle::<T>::join"]
+        ctx.ob("R-C17.12", wj, "join-waits-for-every-other-thread", bool(jh) and bool(cur),
+               "every stored handle is joined, except the calling thread's own" if (jh and cur) else "WorkerPool::join does not join the stored handles (or would join the calling thread itself)")
+
     # ---- cross-cutting disciplines (rules/discipline.py)
     from .. import discipline as D
     # open/lock/marker errors surface
